@@ -333,6 +333,17 @@ def install_base(p: Patcher, modules_threading=(), modules_time=()):
         p.set(m, "threading", THREADING_PROXY)
     for m in modules_time:
         p.set(m, "time", TIME_PROXY)
+    # every other loaded watchdog module that holds a reference to the real `time` / `threading` module gets the seam
+    # too: a change to the library may start using the clock or a lock in a module that did not before
+    done_t = {id(m) for m in modules_time}
+    done_th = {id(m) for m in modules_threading}
+    for name, m in list(sys.modules.items()):
+        if m is None or not (name == "watchdog" or name.startswith("watchdog.")):
+            continue
+        if getattr(m, "time", None) is _real_time and id(m) not in done_t:
+            p.set(m, "time", TIME_PROXY)
+        if getattr(m, "threading", None) is _real_threading and id(m) not in done_th and name != "watchdog.utils":
+            p.set(m, "threading", THREADING_PROXY)
     p.set(_queue_mod, "threading", THREADING_PROXY)
     p.set(_queue_mod, "time", _sim_monotonic)
     p.set(wu, "threading", THREADING_PROXY)
